@@ -269,6 +269,18 @@ func TestStateMachine(t *testing.T) {
 	setRapidSteps(16)
 
 	rapid.Check(t, func(t *rapid.T) {
+		// the options of the implementation are part of the case (mostly the default: tracing every call is slow)
+		switch rapid.IntRange(0, 9).Draw(t, "clientOptions") {
+		case 0:
+			clientOptions.debug, clientOptions.trace = true, false
+		case 1:
+			clientOptions.debug, clientOptions.trace = false, true
+		case 2:
+			clientOptions.debug, clientOptions.trace = true, true
+		default:
+			clientOptions.debug, clientOptions.trace = false, false
+		}
+
 		s, err := newSUT()
 		if err != nil {
 			t.Fatalf("VERIF-INCONCLUSIVE: cannot open the database: %v", err)
@@ -456,6 +468,8 @@ func bulkCase(t *rapid.T, method string) {
 
 	for _, n := range bulkSizes {
 		func() {
+			clientOptions.debug, clientOptions.trace = false, false
+
 			s, err := newSUT()
 			if err != nil {
 				t.Fatalf("VERIF-INCONCLUSIVE: cannot open the database: %v", err)
